@@ -35,6 +35,8 @@ GDone  == Go /\ WDone /\ h' = Append(h, Rec(IF Len(Last(issued)) > 1 THEN "commi
 GRollback == /\ R(4) = 1 /\ Go /\ up /\ wpc = "idle" /\ fpc = "idle"
              /\ UNCHANGED vars
              /\ \E op \in RandOpSet : h' = Append(h, Rec("rollback", op))
+\* a read-write transaction that wrote nothing commits: an empty batch - no log record, no number, nothing reported changes
+GEmptyCommit == /\ R(6) = 1 /\ Go /\ EmptyCommit /\ h' = Append(h, Rec("commitempty", NoOp))
 GSwitch == Go /\ Switch /\ h' = h
 GSpill  == Go /\ Spill /\ h' = h
 GFlush  == /\ Go /\ wpc = "idle"
@@ -63,7 +65,7 @@ GReopen == Go /\ Recover /\ h' = Append(h, Rec("reopen", NoOp))
 GEmit == /\ Len(h) = GenLen /\ ~done /\ PrintT(<<"BEHAVIOUR", ToJson(h)>>)
          /\ done' = TRUE /\ UNCHANGED <<vars, h>>
 
-GNext == GEmit \/ GWrite \/ GDone \/ GRollback \/ GSwitch \/ GSpill \/ GFlush \/ GCompact \/ GCompactNop
+GNext == GEmit \/ GWrite \/ GDone \/ GRollback \/ GEmptyCommit \/ GSwitch \/ GSpill \/ GFlush \/ GCompact \/ GCompactNop
          \/ GClose \/ GRetire \/ GReopen
 GSpec == GInit /\ [][GNext]_gvars
 
